@@ -601,6 +601,43 @@ def r05_5(ctx: Ctx, rep: Report) -> None:
     rep.floor(1, "try statements on the path from the limit check")
 
 
+def r05_8(ctx: Ctx, rep: Report) -> None:
+    """The split of the mask into wildcard bits looks at all 32 bit positions: the bit string is formatted to PREFIX_LEN
+    digits / the positions range over PREFIX_LEN."""
+    rep.rule("R05.8")
+    f = ctx.func("Wildcard._create_ncwb")
+    plen = ctx.folder.try_const("wildcard", "PREFIX_LEN")
+    rep.instance()
+    rep.require(plen == 32, f"wildcard.PREFIX_LEN folds to {plen!r}, expected 32")
+    env = ctx.folder.local_env(f)
+    widths = []
+    for n in own_nodes(f.node):
+        if isinstance(n, ast.Call) and isinstance(n.func, ast.Name) and n.func.id == "format" and len(n.args) == 2:
+            v = ctx.folder.fold(n.args[1], f.module, env)
+            if isinstance(v, str):
+                widths.append((n, v, v in (f"0{plen}b", f"{plen}b") or v.lstrip("0") == f"{plen}b"))
+        if isinstance(n, ast.JoinedStr):
+            for fv in n.values:
+                if isinstance(fv, ast.FormattedValue) and fv.format_spec is not None:
+                    v = ctx.folder.fold(fv.format_spec, f.module, env)
+                    if isinstance(v, str) and v.endswith("b"):
+                        widths.append((n, v, v.lstrip("0") == f"{plen}b"))
+        if isinstance(n, ast.Call) and isinstance(n.func, ast.Name) and n.func.id == "range" and n.args:
+            v = ctx.folder.fold(n.args[-1], f.module, env)
+            lo = ctx.folder.fold(n.args[0], f.module, env) if len(n.args) > 1 else 0
+            if isinstance(v, int):
+                widths.append((n, f"range({lo}, {v})", lo == 0 and v == plen))
+    if not widths:
+        rep.note("R05.8 no bit-width site (format / range) found in Wildcard._create_ncwb (not judged)")
+        rep.ok("Wildcard._create_ncwb: bit positions", "no explicit width (not judged)", nontrivial=False, where=where(f))
+        return
+    bad = [w for w in widths if not w[2]]
+    if bad:
+        rep.violation("Wildcard._create_ncwb", f"{snippet(bad[0][0])}: {bad[0][1]}", f"the wildcard bits are collected over {bad[0][1]}, not over all {plen} bit positions: a mask with a bit outside that window is split wrongly (a non-contiguous bit is missed, the limit is under-counted)", where(f, bad[0][0]), inp="Wildcard('10.0.0.0 128.0.0.255')")
+    else:
+        rep.ok("Wildcard._create_ncwb: bit positions", f"{[w[1] for w in widths]}: all {plen} positions", where=where(f))
+
+
 def _limit_holders(ctx: Ctx) -> Set[str]:
     """Classes whose objects carry the limit: some member of their MRO assigns self.max_ncwb / self._max_ncwb."""
     out: Set[str] = set()
@@ -741,3 +778,8 @@ def run(ctx: Ctx, rep: Report, tier: str) -> None:
     r05_4(ctx, rep)
     r05_5(ctx, rep)
     r05_6(ctx, rep)
+    # R05.7 no stale members: see C03 R03.11
+    from .c03 import members_only_for_groups
+
+    members_only_for_groups(ctx, rep, rid="R05.7")
+    r05_8(ctx, rep)
